@@ -375,8 +375,8 @@ def guest_env(c):
 def c13(c):
     units = guest_libs() + [dict(name="c13_callbacks", srcs=[D + "c13_callbacks.cpp"], build="asan", defs=EXC, libs=["-ldl"], needs=["libguest1.so"])]
     runs = []
-    ns = 2 if not c.thorough else 5
     for b, bn in enumerate(["model", "noop", "dylib"]):
+        ns = 2 if not c.thorough else (c.ncpu - 2 if bn == "model" else 5)
         runs += sliced("c13_callbacks", ns, label="c13_" + bn, args=[b], env=guest_env(c))
     return dict(units=units, runs=runs, evidence=dict(
         level="exploration",
@@ -385,7 +385,7 @@ def c13(c):
              "lock-step with a reference model (function -> owner map, capacity, sandbox-alive flag). After every step: is_unregistered() and entry "
              "point of every owner; a guest call through every live owner's entry point must run exactly its function once with its own sandbox; "
              "for every function a fresh register_callback must abort iff the model says it is registered (success is undone at once). Exhaustive: "
-             "ALL sequences of length 3 (quick) / 4 (thorough) over 2 functions x 3 owners (29 operations), each replayed from a fresh sandbox, an "
+             "ALL sequences of length 3 (quick) / 4 (thorough; 5 for the model backend) over 2 functions x 3 owners (29 operations), each replayed from a fresh sandbox, an "
              "expected abort ends a history. Random: histories of 60 (quick) / 300 (thorough) steps with pools smaller than, nearly as large as and "
              "larger than the entry-point table, plus capacity accounting probes (the backend must accept exactly capacity-minus-live more "
              "registrations) and a complete fill of the table. Backends: model (8 entry points), noop and dylib (64). "
